@@ -237,6 +237,22 @@ class GroupTable(Scenario):
                     old_d = _old_values(starts, szs, dvals, k)
                     cx.prove(And([eq(r[ci["lbl"]], v) for r, v in zip(mine, old_v)] + [eq(r[ci["DEPTH"]], z) for r, z in zip(mine, old_d)]),
                              f"hole {k}: table rows are exactly its values, in order", "table")
+            # the view must follow later changes: update one hole's values, read the table again
+            tgt = self.params.get("then_update")
+            if tgt is not None and szs[tgt] > 0:
+                newv = [cx.real(f"n{p}") for p in range(szs[tgt])]
+                val_d[tgt].values = mk_array(X, newv, (szs[tgt],), "float64")
+                table2 = list(g.drillholes_tables.values())[0].depth_table_by_name("lbl", spatial_index=True)
+                rows2 = [tuple(r) for r in table2.tolist()]
+                cx.prove(len(rows2) == total, "after an update the table still has one row per stored value", "table follows updates")
+                for k, h in enumerate(holes):
+                    key = as_str_if_uuid(h.uid).encode()
+                    mine = [r for r in rows2 if r[ci["Drillhole"]] in (key, key.decode(), h.uid, h.name, str(h.uid))]
+                    exp = newv if k == tgt else _old_values(starts, szs, vals, k)
+                    if szs[k] == 0:
+                        continue
+                    cx.prove(len(mine) == szs[k] and And([eq(r[ci["lbl"]], v) for r, v in zip(mine, exp)]),
+                             f"hole {k}: the table shows the values last written", "table follows updates")
             return "ok"
 
 
@@ -338,7 +354,7 @@ def scenarios(tier, seed):
         S.append(UpdateValues(sizes=[2, 1], target=0, newlen=3, label="lbl"))
         S.append(UpdateValues(sizes=[2, 1], target=0, newlen=1, label="lbl"))
         S += [RemoveHole(sizes=[2, 0, 1], target=0), RemoveHole(sizes=[1, 2], target=1, via_parent=True)]
-        S += [GroupTable(sizes=[2, 0, 1]), GroupTable(sizes=[1, 2]), GroupTable(sizes=[1, 1, 2])]
+        S += [GroupTable(sizes=[2, 0, 1], then_update=0), GroupTable(sizes=[1, 2], then_update=1), GroupTable(sizes=[1, 1, 2])]
     else:
         shapes = _shape_tuples(2, 3) + _shape_tuples(3, 2) + [t for t in _shape_tuples(3, 3) if 3 in t][:12] + \
             [(1, 0, 2, 1), (0, 0, 1, 0), (2, 2, 0, 1), (3, 1, 0, 0)]
@@ -355,6 +371,8 @@ def scenarios(tier, seed):
                 S.append(RemoveHole(sizes=sz, target=tgt, via_parent=True))
         for sz in ([2, 0, 1], [1, 2], [1, 1, 2], [3, 1], [2, 2, 2], [1, 0, 0, 2]):
             S.append(GroupTable(sizes=sz))
+            S.append(GroupTable(sizes=sz, then_update=0))
+            S.append(GroupTable(sizes=sz, then_update=len(sz) - 1))
         for v in (2.0, 2.1):
             S.append(UpdateValues(sizes=[2, 0, 1], target=0, newlen=3, label="DEPTH", version=v))
             S.append(RemoveData(sizes=[2, 0, 1], target=1, version=v))
